@@ -45,6 +45,18 @@ def enc(x):
     return ['?', repr(x)]
 
 
+def enc_none(x):
+    if x is None:
+        return ['NONE', 0]
+    if isinstance(x, Val):
+        return x.v
+    if isinstance(x, tuple):
+        return [enc_none(y) for y in x]
+    if isinstance(x, dict):
+        return {k: enc_none(v) for k, v in x.items()}
+    return ['?', repr(x)]
+
+
 def make_valued_func(ps):
     """def with a distinguishable default object per defaulted parameter, returning locals()"""
     g = {}
@@ -104,7 +116,17 @@ def bind_events(U):
                     sup = {'ok': True, 'map': enc(b)}
                 except TypeError:
                     sup = {'ok': False}
-                calls.append({'np': np_, 'kw': kw, 'py': py, 'sup': sup})
+                # second value scheme: every argument is None (a binder must not take None for 'not passed')
+                nargs, nkwargs = (None,) * np_, {k: None for k in kw}
+                try:
+                    pyn = {'ok': True, 'map': enc_none(f(*nargs, **nkwargs))}
+                except TypeError:
+                    pyn = {'ok': False}
+                try:
+                    supn = {'ok': True, 'map': enc_none(support.bind_callsig(sig, nargs, nkwargs))}
+                except TypeError:
+                    supn = {'ok': False}
+                calls.append({'np': np_, 'kw': kw, 'py': py, 'sup': sup, 'pyn': pyn, 'supn': supn})
             valid, invalid = support.sort_callsigs(sig, allcs)
             validset = {(len(a), tuple(sorted(k))) for a, k, b in valid}
             for c in calls:
